@@ -113,14 +113,28 @@ pub fn check(c: &Case) -> Vec<(String, String)> {
     if let Some(i) = c.ts { line.push_str(&format!("|T{}", TSS[i % TSS.len()])); }
     let sent: Vec<String> = rx.try_iter().map(|v| String::from_utf8_lossy(&v).to_string()).collect();
     let mut fails = vec![];
-    let decorated = !c.dt.is_empty() || !c.t.is_empty() || c.dc.is_some() || c.c.is_some();
-    let mut f = |m: String| { fails.push(("C01".to_string(), m.clone())); if decorated { fails.push(("C04".to_string(), m)); } };
+    // C04 looks only at the tag section and the container section of the line (whatever their position)
+    let sections = |l: &str| -> (Option<String>, Option<String>) {
+        let mut tags = None; let mut cid = None;
+        for sec in l.split('|').skip(1) {
+            if let Some(t) = sec.strip_prefix('#') { tags = Some(t.to_string()); }
+            if let Some(t) = sec.strip_prefix("c:") { cid = Some(t.to_string()); }
+        }
+        (tags, cid)
+    };
+    let want = sections(&line);
     match res {
         Ok(got) => {
-            if got != line { f(format!("returned metric text {:?}, expected {:?}", got, line)); }
-            if sent != vec![line.clone()] { f(format!("sink received {:?}, expected exactly [{:?}]", sent, line)); }
+            if got != line { fails.push(("C01".to_string(), format!("returned metric text {:?}, expected {:?}", got, line))); }
+            if sent != vec![line.clone()] { fails.push(("C01".to_string(), format!("sink received {:?}, expected exactly [{:?}]", sent, line))); }
+            for l in sent.iter().chain(std::iter::once(&got)) {
+                if sections(l) != want {
+                    fails.push(("C04".to_string(), format!("line {:?}: tag section / container section {:?}, expected {:?} (defaults first in configured order, then per-call tags; per-call container id replaces the default)", l, sections(l), want)));
+                    break;
+                }
+            }
         }
-        Err(e) => f(format!("valid call rejected: {:?}", e.kind())),
+        Err(e) => fails.push(("C01".to_string(), format!("valid call rejected: {:?}", e.kind()))),
     }
     fails
 }
